@@ -9,4 +9,6 @@ assert os.path.realpath(ngo.__file__).startswith("/repo/src/"), ngo.__file__
 assert sys.version_info[:2] >= (3, 12), "sys.monitoring needs python 3.12"
 print("setup ok: python", sys.version.split()[0], "clingo", clingo.__version__, "sympy", sympy.__version__)
 PY
+# determinism self-test of the simulator (event logs of the same seed must be byte-identical)
+VERIF_SELFTEST_SEEDS=4 timeout 800 ./check selftest || exit 2
 exit 0
